@@ -80,7 +80,7 @@ func genCase(t *rapid.T) Case {
 		if c.Op == "pow" && c.Y.Form == 0 {
 			switch gen.Pick(t, 3, "edgey") {
 			case 0: // just below an integer
-				c.Y = core.Dec{Coeff: "9999" + gen.Digits(t, 3, "ey"), Exp: -7 + int32(gen.Pick(t, 4, "eye"))}
+				c.Y = core.Dec{Coeff: "9999" + gen.Digits(t, 3, "ey"), Exp: -7 + int32(gen.Pick(t, 4, "eye")), Neg: rapid.Bool().Draw(t, "eyneg")}
 			case 1: // a tiny fraction
 				c.Y = core.Dec{Coeff: gen.Digits(t, 3, "ey2"), Exp: -gen.Limit + int32(rapid.IntRange(0, 20).Draw(t, "eye2"))}
 				if c.Y.Coeff == "0" {
